@@ -425,6 +425,15 @@ def update_dimensions(rep, prog, fn):
         if inner is None or not re.match(r"^ceiling\(\(.*%s.*-\s*%s.*\)/this\.voxel_size_\)$|^ceiling\(\(-%s \+ .*%s.*\)/this\.voxel_size_\)$" % (hi, lo, lo, hi), inner):
             ok = False
             msgs.append("nb_voxels_%s_ = %s, expected %s" % (a, clean(nbs), form))
+        elif not nbs.is_Symbol:
+            # the count is derived from the ceiling but is not the ceiling itself
+            if isinstance(nbs, sp.Max) and any(x.is_Symbol and x.name.startswith("trunc_unsigned_int(") for x in nbs.args) and all(x.is_Symbol or x.is_number for x in nbs.args):
+                pass        # at least the ceiling: the grid still covers the box
+            elif isinstance(nbs, sp.Min) or nbs.has(sp.Min):
+                ok = False
+                msgs.append("nb_voxels_%s_ = %s: a count smaller than %s leaves the part of the declared box beyond the last voxel without voxels - objects there are not registered (their index range is empty after clamping) or are looked up in a voxel that belongs to another place" % (a, clean(nbs), form))
+            else:
+                raise AnalysisBroken("%s: nb_voxels_%s_ = %s is derived from the ceiling of extent/size but is not that ceiling: whether the grid still covers the declared box is not decided" % (prog.loc(fn), a, clean(nbs)))
         d_mn = sp.simplify(sp.sympify(mn) - lo)
         const_pad = d_mn.is_number and d_mn <= 0
         if not const_pad and (-d_mn).is_Symbol and ((-d_mn) in nbs_pad_syms(nbs) or any((-d_mn).name in s_.name for s_ in nbs.free_symbols)) and ("epsilon" in (-d_mn).name or _positive_constant(prog, (-d_mn).name)):
